@@ -819,6 +819,23 @@ func (env *SpecEnv) call(x *ECall) SVal {
 		return SVal{V: ex.unbox(v.V.(Sc).T, t), T: t}
 	case "sum":
 		return env.sumCall(x)
+	case "off":
+		v := env.eval(x.Args[0])
+		if sc, ok := v.V.(Sc); ok && sc.T.Sort == SSlice {
+			return SVal{V: Sc{ex.soff(sc.T)}, T: types.Typ[types.Int]}
+		}
+		return env.fail("off() of non-slice")
+	case "raw":
+		// raw(x, q): element of x's backing array at absolute index q
+		v := env.eval(x.Args[0])
+		q := env.evalInt(x.Args[1])
+		if v.T != nil {
+			if t, ok := v.T.Underlying().(*types.Slice); ok {
+				addr := ElemAddrV{Base: app(SRef, "sarr", v.V.(Sc).T), Idx: q, Elem: t.Elem()}
+				return SVal{V: ex.load(env.state(), addr, t.Elem()), T: t.Elem()}
+			}
+		}
+		return env.fail("raw() of non-slice")
 	case "loopentry":
 		if env.loopEntry == nil {
 			return env.fail("loopentry() outside loop invariant")
